@@ -88,4 +88,29 @@ theorem bRun_eq (e : EOracle) (fuel : Nat) (root : Id) (t0 : STree) (steps : Lis
   · rfl
   · exact bRunSteps_eq e fuel steps _
 
+/-! ### quiet handlers: the notifications of one `update` -/
+
+/-- With handlers that answer nil, one notification only appends its call to the trace. -/
+theorem notify_quiet (o : Oracle) (hq : ∀ w ev ph k, o.h w ev ph k = .nil) (fuel : Nat) (s : St) (w : Id) (ev : Ev) :
+    notify o (fuel + 1) s w ev = { s with calls := s.calls + 1, trace := s.trace ++ [.call w ev .target] } := by
+  simp [notify, call, hq, handleCommand, Cmd.flatten]
+
+theorem foldl_notify_quiet (o : Oracle) (hq : ∀ w ev ph k, o.h w ev ph k = .nil) (fuel : Nat) (ev : Ev) (skip : Hit → Bool) :
+    ∀ (l : List Hit) (s : St),
+      (l.foldl (fun s h => if skip h then s else notify o (fuel + 1) s h.w ev) s).trace =
+        s.trace ++ (l.filter (fun h => !skip h)).map (fun h => Entry.call h.w ev .target) ∧
+      (l.foldl (fun s h => if skip h then s else notify o (fuel + 1) s h.w ev) s).lastHits = s.lastHits
+  | [], s => by simp
+  | h :: l, s => by
+    rw [List.foldl_cons]
+    cases hs : skip h
+    · obtain ⟨h1, h2⟩ := foldl_notify_quiet o hq fuel ev skip l (notify o (fuel + 1) s h.w ev)
+      simp only [Bool.false_eq_true, ↓reduceIte]
+      rw [h1, h2, notify_quiet o hq]
+      simp [hs]
+    · obtain ⟨h1, h2⟩ := foldl_notify_quiet o hq fuel ev skip l s
+      simp only [↓reduceIte]
+      rw [h1, h2]
+      simp [hs]
+
 end VaxisModel.Lemmas.VxfwBodyRun
